@@ -274,7 +274,6 @@ func c29body(c c29cfg) func(x *vsched.Exec) {
 	}
 }
 
-
 // c29concurrent: two or three callers stream different replies through a pool of one connection at the same time; one
 // of them may have a failing writer or a cut connection. Every caller that gets bytes gets exactly its own payload,
 // and afterwards the pool hands out a clean connection.
